@@ -72,45 +72,49 @@ Pose3D operator*(const Eigen::Affine3d & affine, const Pose3D & pose3D)
   Eigen::Vector3d T = affine.translation();
   Eigen::Matrix3d rotation = affine.rotation() * smartRotation.R();
 
+  // Partial derivatives of rotation = R * Rz(yaw) * Ry(pitch) * Rx(roll) with respect to roll, pitch
+  // and yaw. They are built here from the exact derivatives of the elementary rotations (zero outside
+  // the rotating 2x2 block): SmartRotation3D::dRdAngleAround{X,Y,Z}Axis() keep a constant term and
+  // are not the derivatives of SmartRotation3D::R().
+  const double cosx = std::cos(pose3D.orientation.x());
+  const double sinx = std::sin(pose3D.orientation.x());
+  const double cosy = std::cos(pose3D.orientation.y());
+  const double siny = std::sin(pose3D.orientation.y());
+  const double cosz = std::cos(pose3D.orientation.z());
+  const double sinz = std::sin(pose3D.orientation.z());
+
+  Eigen::Matrix3d Rx, Ry, Rz, dRx, dRy, dRz;
+  Rx << 1, 0, 0, 0, cosx, -sinx, 0, sinx, cosx;
+  Ry << cosy, 0, siny, 0, 1, 0, -siny, 0, cosy;
+  Rz << cosz, -sinz, 0, sinz, cosz, 0, 0, 0, 1;
+  dRx << 0, 0, 0, 0, -sinx, -cosx, 0, cosx, -sinx;
+  dRy << -siny, 0, cosy, 0, 0, 0, -cosy, 0, -siny;
+  dRz << -sinz, -cosz, 0, cosz, -sinz, 0, 0, 0, 0;
+
+  const Eigen::Matrix3d dRotation[3] = {
+    R * (Rz * Ry * dRx),
+    R * (Rz * dRy * Rx),
+    R * (dRz * Ry * Rx)};
+
+  // position = R * position + T does not depend on the orientation
   Eigen::Matrix6d J = Eigen::Matrix6d::Zero();
-  J.block<3, 3>(0, 0) = rotation;
+  J.block<3, 3>(0, 0) = R;
 
-  // derivative of rotation wrt angle around X = atan(r21/r22)
-  double r21 = rotation(2, 1);
-  double r22 = rotation(2, 2);
-  double a21 = r22 / (r21 * r21 + r22 * r22);
-  double a22 = r21 / (r21 * r21 + r22 * r22);
-  J(3, 3) = R.row(2).dot(
-    a21 * smartRotation.dRdAngleAroundXAxis().col(1) -
-    a22 * smartRotation.dRdAngleAroundXAxis().col(2));
-  J(3, 4) = R.row(2).dot(
-    a21 * smartRotation.dRdAngleAroundYAxis().col(1) -
-    a22 * smartRotation.dRdAngleAroundYAxis().col(2));
-  J(3, 5) = R.row(2).dot(
-    a21 * smartRotation.dRdAngleAroundZAxis().col(1) -
-    a22 * smartRotation.dRdAngleAroundZAxis().col(2));
+  const double r21 = rotation(2, 1);
+  const double r22 = rotation(2, 2);
+  const double r20 = rotation(2, 0);
+  const double r10 = rotation(1, 0);
+  const double r00 = rotation(0, 0);
 
-
-  // derivative of rotation wrt angle around Y = - asin(r20)
-  double r20 = rotation(2, 0);
-  double a20 = 1. / (1 - r20 * r20);
-  J(4, 3) = R.row(2).dot(a20 * smartRotation.dRdAngleAroundXAxis().col(0));
-  J(4, 4) = R.row(2).dot(a20 * smartRotation.dRdAngleAroundYAxis().col(0));
-  J(4, 5) = R.row(2).dot(a20 * smartRotation.dRdAngleAroundZAxis().col(0));
-
-
-  // derivative of rotation wrt angle around Z = atan(r10/r00)
-  double r10 = R(1, 0);
-  double r00 = R(0, 0);
-  double a10 = r00 / (r00 * r00 + r10 * r10);
-  double a00 = r10 / (r00 * r00 + r10 * r10);
-
-  J(5, 3) = (-a00 * rotation.row(0) + a10 * rotation.row(1)).dot(
-    smartRotation.dRdAngleAroundYAxis().col(0));
-  J(5, 4) = (-a00 * rotation.row(0) + a10 * rotation.row(1)).dot(
-    smartRotation.dRdAngleAroundXAxis().col(0));
-  J(5, 5) = (-a00 * rotation.row(0) + a10 * rotation.row(1)).dot(
-    smartRotation.dRdAngleAroundZAxis().col(0));
+  for (int k = 0; k < 3; ++k) {
+    const Eigen::Matrix3d & dr = dRotation[k];
+    // angle around X = atan2(r21, r22)
+    J(3, 3 + k) = (r22 * dr(2, 1) - r21 * dr(2, 2)) / (r21 * r21 + r22 * r22);
+    // angle around Y = -asin(r20)
+    J(4, 3 + k) = -dr(2, 0) / std::sqrt(1 - r20 * r20);
+    // angle around Z = atan2(r10, r00)
+    J(5, 3 + k) = (r00 * dr(1, 0) - r10 * dr(0, 0)) / (r00 * r00 + r10 * r10);
+  }
 
   Pose3D result;
   result.position = R * pose3D.position + T;
